@@ -20,12 +20,25 @@ import (
 func leastSquaresSection(r *vlib.Run) {
 	r.Section("solve.least_squares", r.N(6000, 120000), vlib.SectionOpts{}, func(c *vlib.Case) {
 		rng := c.Rng
-		kind := []string{"full-rank", "full-rank", "ridge", "rank-two"}[rng.Intn(4)]
+		kind := []string{"full-rank", "full-rank", "ridge", "rank-two", "equal-weight-axes"}[rng.Intn(5)]
 		nRows := 3 + rng.Intn(10)
 		scale := logUniform(rng, 1e-2, 1e2)
 		rows := make([]numerical.Vec3, nRows)
 		b := make([]float64, nRows)
 		switch kind {
+		case "equal-weight-axes":
+			// the three coordinate axes, each measured the same number of times with the same weight:
+			// the normal matrix is an exact multiple of the identity (three equal eigenvalues)
+			wgt := float64(1+rng.Intn(4)) / 2
+			reps := 1 + rng.Intn(3)
+			nRows = 3 * reps
+			rows, b = make([]numerical.Vec3, nRows), make([]float64, nRows)
+			perm := rng.Perm(nRows)
+			for i := 0; i < nRows; i++ {
+				rows[perm[i]][i%3] = wgt
+				b[perm[i]] = float64(rng.Intn(9) - 4)
+			}
+			scale = wgt
 		case "rank-two":
 			// all rows are integer combinations of two integer vectors:
 			// A^T A has an exactly zero eigenvalue.
